@@ -74,6 +74,20 @@ def cases(tier, seed):
                                 out.append(dict(st, hermitian=herm, cls="mask-degenerate", pos=[b, i, j], repr=rep, total=2, others=others))
                             if not same and herm:
                                 out.append(dict(st, cls="mask-asymmetric", pos=[b, i, j], repr=rep, total=2, others=others))
+    # the same on two blocks of equal size (masks of different blocks can then be confused without a shape error)
+    for sizes in ((2, 2), (2, 2, 1)):
+        for E in lattice.level_patterns(sizes):
+            st = dict(sizes=list(sizes), E=E, k=1, support=[[1]], pattern="dense", fd=[], mask=None, hermitian=True)
+            off = offsets(sizes)
+            for b, s in enumerate(sizes):
+                for i, j in itertools.permutations(range(s), 2):
+                    same = E[off[b] + i] == E[off[b] + j]
+                    for others in ("after", "before"):
+                        if same and i < j:
+                            for herm in (True, False):
+                                out.append(dict(st, hermitian=herm, cls="mask-degenerate", pos=[b, i, j], repr="dense", total=2, others=others))
+                        if not same:
+                            out.append(dict(st, cls="mask-asymmetric", pos=[b, i, j], repr="dense", total=2, others=others))
     # (e) defective eigenvectors, (f) (R,L) in Hermitian mode, (h) both subspace arguments, (i) option conflicts
     for sizes in ((1, 1), (2, 1), (1, 2), (1, 1, 1)):
         for defect in ("scaled", "overlap", "nonorthogonal", "biorth-broken", "RL-in-hermitian", "both-args", "fd-custom-solver", "fd-implicit", "ndarray-fd-multiblock",
